@@ -1,6 +1,7 @@
 package main
 
 import (
+	"go/types"
 	"fmt"
 	"strings"
 
@@ -30,6 +31,7 @@ func checkC18(c *Ctx) {
 		c.Undecided("C18-R1", "InjectKeyBytes", "-", "not found")
 	} else {
 		checkPrefixLoop(c, p, ik, "C18-R1")
+		checkSubstitutedPrefix(c, p, ik, "C18-R1")
 		for _, pl := range findPrefixLoops(ik) {
 			ok := false
 			if pl.nSrc != nil {
@@ -183,6 +185,22 @@ func c18SetSize(c *Ctx, p *Prog, tname string) {
 		for _, call := range callsIn(fn, func(n string, _ *ssa.CallCommon) bool { return strings.HasSuffix(n, "CellBuffer).Resize") }) {
 			preempt = p.pos(call.Pos())
 		}
+	}
+	if tname == "simscreen" {
+		// the test double must not lose the event: no non-blocking send of it
+		lossy := ""
+		for f := range reach {
+			eachInstr(f, func(in ssa.Instruction) {
+				if sel, ok := in.(*ssa.Select); ok && !sel.Blocking {
+					for _, st := range sel.States {
+						if st.Dir == types.SendOnly {
+							lossy = f.Name() + " sends without waiting at " + p.pos(in.Pos())
+						}
+					}
+				}
+			})
+		}
+		c.Check(lossy == "", "C18-R2", "(*simscreen).SetSize:event-not-dropped", p.pos(fn.Pos()), "the resize event is sent with a blocking send (a full queue delays it, it is not dropped) "+lossy)
 	}
 	c.Check(posts && (preempt == "" || !usesCompare), "C18-R2", "(*"+tname+").SetSize:announces", p.pos(fn.Pos()),
 		fmt.Sprintf("resize event constructed and posted (in %q): %v; logical buffer resized directly before the comparison: %q", via, posts, preempt))
